@@ -66,7 +66,7 @@ fn main() {
             1 => Index::open(vd.clone()).unwrap(),
             _ => Index::open(MmapDirectory::open(tmp.path()).unwrap()).unwrap(),
         };
-        let handles = [index.clone(), second];
+        let mut handles = vec![index.clone(), second];
         let mut live: Vec<(u64, IndexWriter<TantivyDocument>)> = vec![];
         let mut ops: Vec<LOp> = vec![];
         let mut codes: Vec<u64> = vec![];
@@ -75,11 +75,21 @@ fn main() {
         let len = rng.range(3, 14);
         let mut forced: std::collections::VecDeque<u64> = Default::default();
         for _ in 0..len {
+            // now and then another handle on the same directory is opened while the history runs (opening a handle must not
+            // touch the writer lock); later creations pick any handle
+            if rng.chance(1, 6) && handles.len() < 5 {
+                let h = match kind {
+                    0 => Some(index.clone()),
+                    1 => guarded(|| Index::open(vd.clone())).ok().and_then(|r| r.ok()),
+                    _ => guarded(|| Index::open(MmapDirectory::open(tmp.path()).unwrap())).ok().and_then(|r| r.ok()),
+                };
+                if let Some(h) = h { handles.push(h); out.count("handles_opened_mid_history", 1); }
+            }
             let r = forced.pop_front().unwrap_or_else(|| rng.below(100));
             if live.is_empty() || r < 45 {
                 let valid = if rng.chance(1, 5) { 1 + rng.below(2) as u8 } else { 0 };
                 let build_ok = !(kind == 1 && rng.chance(1, 6));
-                let handle = rng.below(2) as usize;
+                let handle = rng.below(handles.len() as u64) as usize;
                 let w = next_w;
                 next_w += 1;
                 if !build_ok { vd.set_fault(Some(vd.log_len()), true, vec![OpKind::AtomicRead]); }
@@ -241,6 +251,44 @@ fn main() {
         out.spec_checked(matches!(again, Ok(Ok(_))), json!({"what": "lock not released after wait_merging_threads returned"}));
         out.count("wait_merging_threads_races", 1);
         out.count("creation_attempts_during_wait", attempts);
+    }
+    // churn: several threads, each with its own Index handle, keep creating, holding and dropping writers -- releases race
+    // with creation attempts; never two writers alive
+    for it in 0..(if thorough { 12 } else { 3 }) {
+        let tmp = tempfile::tempdir().unwrap();
+        let use_mmap = it % 3 != 2;
+        let index = if use_mmap { Index::create(MmapDirectory::open(tmp.path()).unwrap(), schema.clone(), IndexSettings::default()).unwrap() }
+                    else { Index::create(RamDirectory::create(), schema.clone(), IndexSettings::default()).unwrap() };
+        let live = Arc::new(std::sync::atomic::AtomicUsize::new(0));
+        let max_live = Arc::new(std::sync::atomic::AtomicUsize::new(0));
+        let created = Arc::new(std::sync::atomic::AtomicUsize::new(0));
+        let mut hs = vec![];
+        for t in 0..6u64 {
+            let ix = if use_mmap { Index::open(MmapDirectory::open(tmp.path()).unwrap()).unwrap() } else { index.clone() };
+            let (live, max_live, created) = (live.clone(), max_live.clone(), created.clone());
+            hs.push(std::thread::spawn(move || {
+                let deadline = std::time::Instant::now() + std::time::Duration::from_millis(700);
+                let mut k = t;
+                while std::time::Instant::now() < deadline {
+                    if let Ok(w) = ix.writer_with_num_threads::<TantivyDocument>(1, 15_000_000) {
+                        let n = live.fetch_add(1, std::sync::atomic::Ordering::SeqCst) + 1;
+                        max_live.fetch_max(n, std::sync::atomic::Ordering::SeqCst);
+                        created.fetch_add(1, std::sync::atomic::Ordering::SeqCst);
+                        k = k.wrapping_mul(6364136223846793005).wrapping_add(1442695040888963407);
+                        if k % 3 == 0 { std::thread::sleep(std::time::Duration::from_micros(200)); }
+                        live.fetch_sub(1, std::sync::atomic::Ordering::SeqCst);
+                        drop(w);
+                    }
+                }
+            }));
+        }
+        for h in hs { let _ = h.join(); }
+        let (ml, cr) = (max_live.load(std::sync::atomic::Ordering::SeqCst), created.load(std::sync::atomic::Ordering::SeqCst));
+        out.spec_checked(ml <= 1, json!({"what": "two IndexWriters alive at the same time while 6 threads create / hold / drop writers on the same directory", "dir": if use_mmap { "mmap" } else { "ram" }, "max_simultaneously_alive": ml, "writers_created": cr}));
+        let again = guarded(|| index.writer_with_num_threads::<TantivyDocument>(1, 15_000_000));
+        out.spec_checked(matches!(again, Ok(Ok(_))), json!({"what": "lock not free after the churn ended", "dir": if use_mmap { "mmap" } else { "ram" }}));
+        out.count("churn_runs", 1);
+        out.count("writers_created_in_churn", cr as u64);
     }
     // racing creations: exactly one winner, the others get a lock failure, and the lock is free again afterwards
     let races = if thorough { 3000 } else { 800 };
